@@ -2,6 +2,12 @@ from typing import Dict, Any, List
 from . import LinearIR, Errors
 import math
 import copy
+import os as _verif_os
+
+# Verification hooks (honoured only when NSL_VERIF=1): a tracer object installed
+# by the verification harness observes activations and executed instructions.
+_verif_enabled = _verif_os.environ.get("NSL_VERIF") == "1"
+_verif_tracer = None
 
 
 class ExecutionContext:
@@ -92,7 +98,14 @@ class ExecutionContext:
         currentInstruction = 0
         lastInstruction = len(instructions)
 
+        if _verif_enabled and _verif_tracer is not None:
+            _verif_tracer.enter(self, function, instructions, localScope, args)
+
         while currentInstruction < lastInstruction:
+            if _verif_enabled and _verif_tracer is not None:
+                _verif_tracer.step(
+                    function, currentInstruction, localScope, args
+                )
             instruction = instructions[currentInstruction]
             currentInstruction += 1
 
@@ -338,6 +351,9 @@ class ExecutionContext:
                     localScope[ref] = result
                 case _:
                     raise Exception(f"Unhandled opcode: {opCode}")
+
+        if _verif_enabled and _verif_tracer is not None:
+            _verif_tracer.leave(function, localScope)
 
 
 class VirtualMachine:
